@@ -17,7 +17,9 @@ import importlib.util
 import itertools
 import os
 
-from vf import common, indexrun, observe, reorgrun, world
+from hashlib import sha256
+
+from vf import chain, common, indexrun, observe, reorgrun, world
 from vf.chain import SCRIPTS, script_hashX
 from vf.common import farm, finish
 
@@ -29,6 +31,24 @@ CHAINS = {
     'few-rows': (['fan', 'opret', 'empty', 'self', 'multi', 'chain2'], '--F---'),
 }
 MORE = ['self', 'multi']            # blocks indexed after the compaction
+# scripts whose hashX starts with fffe / ffff: the last two prefixes of the compaction cursor
+SCRIPT_Y = bytes.fromhex('5153790000')
+SCRIPT_Z = bytes.fromhex('51df680100')
+assert sha256(SCRIPT_Y).digest()[:2] == b'\xff\xfe' and sha256(SCRIPT_Z).digest()[:2] == b'\xff\xff'
+
+
+def r_payyz(sim):
+    ops = [op for op in sim.spendable(chain.SPENDABLE_KEYS) if sim.utxos[op]['value'] > 10 ** 6]
+    if not ops:
+        return []
+    v = sim.utxos[ops[0]]['value']
+    return [chain.Tx([(ops[0][0], ops[0][1], b'\x01\x51', 0xffffffff)],
+                     [(v // 3, SCRIPT_Y), (v // 3, SCRIPT_Z), (v - 2 * (v // 3), chain.SCRIPTS['A'])])]
+
+
+chain.RECIPES['payyz'] = r_payyz
+CHAINS['edge'] = (['payyz', 'old', 'payyz', 'self', 'payyz', 'new', 'payyz'], 'FHFHF-H')
+MORE_OF = {'edge': ['payyz', 'payyz']}
 
 
 def load_tool():
@@ -41,7 +61,7 @@ def load_tool():
 
 
 def all_hashXs():
-    return [script_hashX(s) for s in SCRIPTS.values()]
+    return [script_hashX(s) for s in list(SCRIPTS.values()) + [SCRIPT_Y, SCRIPT_Z]]
 
 
 def read_histories(history):
@@ -132,7 +152,7 @@ def continue_serving(m, sim, before, res, failures, label, then, max_rows=12500)
             # the server indexes a block and stops; the tool runs to completion; the server
             # starts again and indexes another block
             rec = list(sim_recipes(sim))
-            ext1 = indexrun.chain_for(rec + MORE[:1])
+            ext1 = indexrun.chain_for(rec + more_for(sim)[:1])
             w.daemon.set_chain(ext1.blocks)
             try:
                 w.poll()
@@ -151,7 +171,7 @@ def continue_serving(m, sim, before, res, failures, label, then, max_rows=12500)
             if failures:
                 return
             w = world.World(m, reorg_limit=5, activation=ACT)
-            ext2 = indexrun.chain_for(rec + MORE)
+            ext2 = indexrun.chain_for(rec + more_for(sim))
             w.daemon.set_chain(ext2.blocks)
             w.start_sync()
             try:
@@ -170,13 +190,13 @@ def continue_serving(m, sim, before, res, failures, label, then, max_rows=12500)
             res.count('continuations_index,tool,index')
             return
         recipes = CHAINS[label.split('/')[0]][0] if False else None
-        ext = indexrun.chain_for(list(sim_recipes(sim)) + MORE)
+        ext = indexrun.chain_for(list(sim_recipes(sim)) + more_for(sim))
         final = ext.blocks
         w.daemon.set_chain(final)
         try:
             w.poll()
             if then == 'index+reorg':
-                y = reorgrun.make_branch(list(sim_recipes(sim)) + MORE, 1, ['replay', 'new'], b'Y', ext)
+                y = reorgrun.make_branch(list(sim_recipes(sim)) + more_for(sim), 1, ['replay', 'new'], b'Y', ext)
                 final = y.blocks
                 w.daemon.set_chain(final)
                 w.poll()
@@ -200,6 +220,13 @@ _RECIPES = {}
 
 def sim_recipes(sim):
     return _RECIPES[id(sim)]
+
+
+def more_for(sim):
+    for name, (recipes, _f) in CHAINS.items():
+        if recipes is _RECIPES[id(sim)]:
+            return MORE_OF.get(name, MORE)
+    return MORE
 
 
 def run_case(case, res):
